@@ -144,7 +144,7 @@ func c11Messages(thorough bool) []c11msg {
 	tx := func(s string) MPart { return MPart{Kind: "text", Text: s} }
 	ht := func(s string) MPart { return MPart{Kind: "html", Text: s} }
 	pr := func(e *E) MPart { return MPart{Kind: "print", E: e} }
-	alpha := []MPart{tx("Hi "), tx(" and "), tx("!"), tx("{lb}"), tx("{rb}"), ht("<b>"), ht("</b>"), ht("<br/>"), pr(vr("a")), pr(vr("b")), pr(vr("c", Acc{Kind: "dot", Key: "x"})), pr(vr("x")), pr(vr("x_1")),
+	alpha := []MPart{tx("Hi "), tx(" and "), tx("!"), tx("{lb}"), tx("{rb}"), tx("R&amp;D isn't \"q\" "), ht("<b>"), ht("</b>"), ht("<br/>"), pr(vr("a")), pr(vr("b")), pr(vr("c", Acc{Kind: "dot", Key: "x"})), pr(vr("x")), pr(vr("x_1")),
 		pr(bin("+", vr("b"), I(1))), {Kind: "call", Text: "{call .sub data=\"all\"/}"}, pr(vr("i"))}
 	var out []c11msg
 	var rec func(parts []MPart)
